@@ -19,7 +19,9 @@ Short == <<"does", "things">>
 LongWord == "https://example.org/docs/gettingstarted/installguide.html"
 HyphWord == "/srv/data-2026/build-42/artifacts_0001/output-7.tar.gz"
 Long == <<"reads", "the", "internationalization", "tables", LongWord, "and", "writes", "every", "entry", "that", "is", "new",
-          "or", "has", "changed", "since", "the", "last", "run", "to", "the", "given", "place", HyphWord>>
+          "or", "has", "changed", "since", "the", "last", "run", "to", "the", "given", "place", HyphWord,
+          \* braces: a description is text, not a format string
+          "as", "{name}:", "{0}", "{}", "or", "{">>
 None == <<>>
 HelpText == <<<<"Use", "it", "wisely", "and", "often,", "see", LongWord>>, <<>>,
               <<"Second", "paragraph", "of", "the", "manual:", HyphWord, "too.">>>>
